@@ -456,6 +456,11 @@ func genC13(g *Gen, idx int) *Plan {
 		sg.add(connectPkt("c1", 30, true, true)) // will flag, never answered
 		peer.Policy.Will = "ignore"
 	}
+	if kind == 3 && (ck == "shutdown" || ck == "garbage" || ck == "illegal") && g.Bool(0.3) {
+		// "... plus pending send": the broker has stopped reading, a write to it is blocked when the cause strikes
+		p.Family += "-blocked-write"
+		p.Broker.Faults = append(p.Broker.Faults, BrokerFault{AtMs: at - g.Range(50, 1200), Session: "p1", Kind: "backpressure", Cap: int(g.Range(0, 20)), DurMs: 60000})
+	}
 	peer.Ops = sg.ops
 	for i := range peer.Ops {
 		if peer.Ops[i].AtMs >= at {
